@@ -170,8 +170,10 @@ int GraphVertex::activate(DataStack& activating_data,
   bool expected = false;
   if (!_activated.compare_exchange_strong(expected, true,
                                           ::std::memory_order_relaxed)) {
+    BABYLON_VERIF_POINT("af:vertex_activate_lost");
     return 0;
   }
+  BABYLON_VERIF_POINT("af:vertex_activate_won");
 
   // 记录激活vertex的closure
   _closure = closure;
@@ -204,6 +206,7 @@ int GraphVertex::activate(DataStack& activating_data,
     waiting_num = static_cast<size_t>(
         _waiting_num.fetch_sub(finished, ::std::memory_order_acq_rel) -
         finished);
+    BABYLON_VERIF_POINT("af:vertex_activate_sub");
     if (waiting_num == 0) {
       runnable_vertexes.emplace_back(this);
       return 0;
@@ -214,6 +217,7 @@ int GraphVertex::activate(DataStack& activating_data,
 }
 
 void GraphVertex::invoke(VertexStack& runnable_vertexes) noexcept {
+  BABYLON_VERIF_POINT("af:vertex_invoke");
   bool essential_failed = false;
   for (auto& dependency : _dependencies) {
     if (dependency.is_essential() &&
@@ -239,6 +243,7 @@ void GraphVertex::invoke(VertexStack& runnable_vertexes) noexcept {
       }
     }
   } else {
+    BABYLON_VERIF_POINT("af:vertex_essential_failed");
     // 不允许平凡模式情况下，不设置_runnable_vertexes
     if (_builder->allow_trivial()) {
       _runnable_vertexes = &runnable_vertexes;
